@@ -109,6 +109,8 @@ pub fn rich_asts() -> Vec<File> {
     let tb0 = Clause::TypeBlock { tname: "AWS::X::Y".into(), cond: None, lets: vec![], body: vec![vec![un(vec![key("Properties"), key("p")], UnOp::IsString, false)], vec![un(vec![key("Properties"), key("n")], UnOp::Exists, false), un(vec![key("Properties")], UnOp::Exists, true)]] };
     out.push(file1(rule("r0", vec![vec![tb0.clone()]])));
     out.push(file1(rule("r0", vec![vec![tb0.clone()], vec![un(vec![key("a")], UnOp::Exists, true)]])));
+    // strings holding a backslash directly before a quote character (the escape of the delimiter follows a literal backslash)
+    out.push(file1(rule("r0", vec![vec![bin(vec![key("a")], BinOp::Eq, false, s("it\\'s \\\"q\\\" c:\\dir"))], vec![bin(vec![key("a")], BinOp::In, false, l(vec![s("x\\'"), s("\\\"y")]))]])));
     // variables defined inside a type block are evaluated against each matched resource
     let tbl = Clause::TypeBlock { tname: "AWS::X::Y".into(), cond: None, lets: vec![Let { name: "pp".into(), val: Arg::Q(false, vec![key("Properties"), key("p")]) }, Let { name: "cn".into(), val: Arg::Call("count".into(), vec![Arg::Q(false, vec![key("Properties"), Part::Star])]) }], body: vec![vec![un(vec![Part::Var("pp".into())], UnOp::IsString, false)], vec![bin(vec![Part::Var("cn".into())], BinOp::Eq, false, i(2))]] };
     out.push(file1(rule("r0", vec![vec![tbl.clone()]])));
